@@ -76,7 +76,7 @@ def gen_index(rng, lab, kind, ik, tol):
 
 
 def gen_case(rng):
-    sp = gen.spec(rng, mindim=0, maxdim=4, minsize=1, maxsize=5)
+    sp = gen.spec(rng, mindim=0, maxdim=4, minsize=1, maxsize=5, narrow=True)
     nd = len(sp["dims"])
     by = rng.choice(['label', 'label', 'position'])
     tolmode = rng.choice([None, None, None, 'tol', 'nloc'])
